@@ -75,19 +75,32 @@ LEMMA_OF = [
 ]
 
 
-def component_values(drv, outdir):
-    """ask Coq for the value of every component of static_ok (so that ALL failing lemmas can be named, not only the first)"""
+ALIAS_LEMMA_OF = [
+    ('foot_tool_ok', 'alias_tool_ran'),
+    ('alias_results_fresh', 'alias_results_fresh_current'),
+    ('alias_params_not_retained', 'alias_params_not_retained_current'),
+    ('alias_in_place_discipline', 'alias_in_place_discipline_current'),
+    ('alias_no_shared_elements', 'alias_no_shared_elements_current'),
+    ('alias_iterators_over_copies', 'alias_iterators_over_copies_current'),
+    ('alias_ok', 'alias_ok_current'),
+]
+
+
+def component_values(drv, outdir, lemma_of=None, imports='Params ParamsFoot Indep IndepFacts', with_facts=True):
+    """ask Coq for the value of every component of static_ok / alias_ok (so that ALL failing lemmas can be named, not only the first)"""
+    lemma_of = lemma_of or LEMMA_OF
     p = os.path.join(outdir, 'StaticReport.v')
     with open(p, 'w') as f:
-        f.write('From Verif Require Import Params ParamsFoot Indep IndepFacts.\n')
-        for name, _ in LEMMA_OF:
+        f.write('From Verif Require Import %s.\n' % imports)
+        for name, _ in lemma_of:
             f.write('Definition R_%s := Eval vm_compute in %s.\nPrint R_%s.\n' % (name, name, name))
-        f.write('Definition R_static_facts := Eval vm_compute in static_facts.\nPrint R_static_facts.\n')
-        f.write('Definition R_current_facts := Eval vm_compute in current_facts.\nPrint R_current_facts.\n')
+        if with_facts:
+            f.write('Definition R_static_facts := Eval vm_compute in static_facts.\nPrint R_static_facts.\n')
+            f.write('Definition R_current_facts := Eval vm_compute in current_facts.\nPrint R_current_facts.\n')
         f.write('Definition R_error := Eval vm_compute in foot_tool_error.\nPrint R_error.\n')
     rc, out = drv.run(['timeout', '600', 'coqc', '-R', drv.COQ, 'Verif', '-o', os.path.join(outdir, 'StaticReport.vo'), p], cwd=outdir)
     vals = {}
-    for name, _ in LEMMA_OF:
+    for name, _ in lemma_of:
         m = re.search(r'R_%s\s*=\s*(true|false)' % name, out)
         vals[name] = (m.group(1) == 'true') if m else None
     facts = {}
@@ -96,6 +109,85 @@ def component_values(drv, outdir):
         facts[which] = ' '.join(m.group(1).split()) if m else None
     m = re.search(r'R_error\s*=\s*"(.*?)"\s*:', out, re.S)
     return vals, facts, (m.group(1) if m else ''), (out[-1500:] if rc != 0 else '')
+
+
+def _details(drv):
+    details = {}
+    fj = os.path.join(drv.BUILD, 'footprint.json')
+    if os.path.exists(fj):
+        try:
+            rep = json.load(open(fj))
+            for tag in ('untagged', 'verif'):
+                for d in ((rep.get(tag) or {}).get('details') or []):
+                    details.setdefault(d['what'], []).append(d)
+        except ValueError:
+            pass
+    return details
+
+
+def alias_differences(drv):
+    """the regenerated aliasing tables (C18/C17) against the expected ones of coq/AliasFacts.v, in words"""
+    regen = coq_tables(os.path.join(drv.COQ, 'ParamsFoot.v'))
+    expect = coq_tables(os.path.join(drv.COQ, 'AliasFacts.v'))
+    details = _details(drv)
+
+    def at(what, *needles):
+        for d in details.get(what, []):
+            if all(n in d['words'] for n in needles):
+                return ' (%s: %s)' % (d['at'], d['where'])
+        return ''
+
+    diffs = []
+
+    def add(lemma, words):
+        diffs.append(dict(lemma=lemma, words=words))
+
+    clean = ('fresh', 'not-retained')
+    written_only = []
+    got = [tuple(x) for x in regen.get('foot_api', []) if x[2] not in clean]
+    want = [tuple(x) for x in expect.get('expected_api_exceptions', [])]
+    named_suffixes = ('.AsArray', '.GetValues', '.GetKeys', '.RemoveValues', '.GetIterator')
+    for row in got:
+        if row in want:
+            continue
+        fn, what, verdict = row
+        named = (fn.startswith('collection.') or fn.startswith('module.')) and (fn.endswith(named_suffixes) or 'Class_).' in fn or fn.startswith('module.'))
+        if what.startswith('result'):
+            lemma = 'alias_results_fresh_current' if named else 'alias_params_not_retained_current'
+            if 'contains the objects of' in verdict:
+                lemma = 'alias_no_shared_elements_current'
+            add(lemma, '%s of %s is not memory of its own: it %s%s' % (what, fn, verdict, at('api', what + ' of ' + fn)))
+            if fn.endswith('.GetIterator'):
+                add('alias_iterators_over_copies_current', 'the iterator returned by %s is not built over a fresh copy: it %s' % (fn, verdict))
+        elif verdict == 'written' or verdict.endswith('; written'):
+            written_only.append('%s of %s' % (what.split(' [')[0], fn))
+        else:
+            add('alias_params_not_retained_current', '%s of %s does not stay with the caller: %s%s' % (what, fn, verdict, at('api', what.split(' [')[0] + ' [', fn)))
+    if written_only:
+        cause = sorted(set(d['words'].split(' writes through ')[1].split(': ', 1)[1] for d in details.get('escape', []) if ' writes through parameter' in d['words'] and ': ' in d['words'].split(' writes through ')[1]))
+        add('alias_params_not_retained_current', '%d functions now WRITE through an argument (a method they call on it mutates its receiver): %s%s; how: %s'
+            % (len(written_only), '; '.join(written_only[:8]), ' ...' if len(written_only) > 8 else '', '; '.join(cause[:6])))
+    for row in want:
+        if row not in got and not any(g[0] == row[0] and g[1] == row[1] for g in got):
+            add('alias_params_not_retained_current', 'expected (reviewed) row no longer found: %s %s: %s' % row)
+    got_sw = [tuple(x) for x in regen.get('foot_storage_writes', [])]
+    want_sw = [tuple(x) for x in expect.get('expected_storage_writes', [])]
+    for e in got_sw:
+        if e not in want_sw:
+            add('alias_in_place_discipline_current', 'NEW in-place write: %s writes into storage that was reachable before the call through %s%s' % (e[0], e[1], at('storage-write', e[0], e[1])))
+    for e in want_sw:
+        if e not in got_sw:
+            add('alias_in_place_discipline_current', 'expected in-place write no longer found: %s through %s' % e)
+    for (fn, fld, frm) in regen.get('foot_field_sets', []):
+        add('alias_in_place_discipline_current', '%s sets %s to memory that is not freshly allocated: it %s%s' % (fn, fld, frm, at('field-set', fn, fld)))
+    if regen.get('foot_publish_once', []) != expect.get('expected_publish_once', []):
+        add('alias_in_place_discipline_current', 'publish-once fields (only ever set to fresh memory, never written in place): found %s, expected %s' % (regen.get('foot_publish_once'), expect.get('expected_publish_once')))
+    for e in regen.get('foot_shared_edges', []):
+        if e[0].startswith('arg 1:values of agent.(*iteratorClass_).MakeFromArray'):
+            add('alias_iterators_over_copies_current', 'Iterator.MakeFromArray (which keeps its argument) is handed something that is not a fresh copy: %s%s' % (e[1], at('shared-edge', e[0], e[1])))
+    regenerated = dict(foot_api_not_clean=got, foot_storage_writes=got_sw, foot_field_sets=regen.get('foot_field_sets'), foot_publish_once=regen.get('foot_publish_once'))
+    expected = dict(foot_api_not_clean=want, foot_storage_writes=want_sw, foot_field_sets=[], foot_publish_once=expect.get('expected_publish_once'))
+    return diffs, regenerated, expected
 
 
 def _field_words(name):
@@ -216,13 +308,19 @@ def run_late(drv, pid, late_files):
             failures.append(dict(file=f, first_failing_lemma=lemma, output=out[-1200:]))
     res = dict(ok=not failures, files=late_files, seconds=None, assumptions=outputs)
     if failures:
-        vals, facts, err, broken = component_values(drv, outdir)
-        diffs, regenerated, expected = differences(drv)
-        failing = [lem for (name, lem) in LEMMA_OF if vals.get(name) is False]
+        alias = failures[0]['file'] == 'AliasStatic.v'
+        if alias:
+            vals, facts, err, broken = component_values(drv, outdir, ALIAS_LEMMA_OF, 'ParamsFoot AliasFacts', False)
+            diffs, regenerated, expected = alias_differences(drv)
+            failing = [lem for (name, lem) in ALIAS_LEMMA_OF if vals.get(name) is False]
+        else:
+            vals, facts, err, broken = component_values(drv, outdir)
+            diffs, regenerated, expected = differences(drv)
+            failing = [lem for (name, lem) in LEMMA_OF if vals.get(name) is False]
         if vals.get('static_facts_agree') is False:
             diffs.append(dict(lemma='static_facts_agree_current', words='the structural facts derived from the typed syntax trees are %s; those of genparams.py are %s; they must be equal and those of the repaired tree (registries locked, no shared formatter/parser/collator, collator calls write nothing)' % (facts.get('static_facts'), facts.get('current_facts'))))
         if vals.get('foot_tool_ok') is False:
-            diffs.append(dict(lemma='static_tool_ran', words='tools/gofootprint could not analyse the sources: ' + err))
+            diffs.append(dict(lemma='alias_tool_ran' if alias else 'static_tool_ran', words='tools/gofootprint could not analyse the sources: ' + err))
         res.update(failures=failures, failing_lemmas=failing, difference_in_words=[d['words'] + '  [lemma ' + d['lemma'] + ']' for d in diffs],
                    regenerated=regenerated, expected=expected, static_facts=facts, report_error=broken or None)
     res['seconds'] = round(time.time() - t0, 1)
